@@ -114,3 +114,369 @@ Proof.
     + rewrite !get_update_same. rewrite <- He. exact Hd.
     + rewrite !get_update_other by exact Hx. apply Hdone.
 Qed.
+
+Lemma Rb_rel s1 s2 k : Rb s1 s2 -> rel (get (st_mem s1) k) (get (st_mem s2) k).
+Proof. intros [[_ [_ [_ [_ [_ [[H _] _]]]]]] _]. apply H. Qed.
+
+Lemma Rb_epoch s1 s2 : Rb s1 s2 -> st_epoch s1 = st_epoch s2.
+Proof. intros [[_ [_ [H _]]] _]. exact H. Qed.
+
+Lemma Rb_bound s1 s2 k : Rb s1 s2 -> res_builtAt (get (st_mem s1) k) <= st_epoch s1.
+Proof. intros [[_ [_ [_ [_ [_ [_ H]]]]]] _]. apply H. Qed.
+
+Lemma Rb_done_iff s1 s2 k : Rb s1 s2 -> (done s1 k <-> done s2 k).
+Proof.
+  intros H. split; [apply H|]. intros Hd. unfold done in *.
+  pose proof (Rb_rel _ _ k H) as [_ [_ [_ [_ [Hle _]]]]]. pose proof (Rb_bound _ _ k H) as Hb.
+  rewrite <- (Rb_epoch _ _ H) in Hd. lia.
+Qed.
+
+Lemma Rb_flagged1 s1 s2 k : Rb s1 s2 -> flagged s1 k = false.
+Proof. intros [[_ [_ [_ [H _]]]] _]. unfold flagged. rewrite H. reflexivity. Qed.
+Lemma Rb_flagged2 s1 s2 k : Rb s1 s2 -> flagged s2 k = false.
+Proof. intros [[_ [_ [_ [_ [H _]]]]] _]. unfold flagged. rewrite H. reflexivity. Qed.
+
+Lemma Rb_gap s1 s2 k d : Rb s1 s2 -> In d (drop_single (res_deps (get (st_mem s1) k))) -> d_order d = false ->
+  ~ (bA (st_mem s2) k < cA (st_mem s1) (d_key d) /\ cA (st_mem s1) (d_key d) <= bA (st_mem s1) k).
+Proof. intros [[_ [_ [_ [_ [_ [[_ H] _]]]]]] _]. apply H. Qed.
+
+Lemma Rb_set_db s1 s2 k r : Rb s1 s2 -> Rb (set_db s1 k r) (set_db s2 k r).
+Proof.
+  intros [[Hdb [Hde [He [Hf1 [Hf2 [Hm Hbd]]]]]] Hdone]. split; [|exact Hdone].
+  unfold R. cbn [set_db st_db st_db_epoch st_epoch st_flag st_mem]. rewrite Hdb.
+  repeat (split; [assumption || reflexivity|]). exact Hbd.
+Qed.
+
+Lemma Rb_unflag s1 s2 k : Rb s1 s2 -> Rb (unflag s1 k) (unflag s2 k).
+Proof.
+  intros [[Hdb [Hde [He [Hf1 [Hf2 [Hm Hbd]]]]]] Hdone]. split; [|exact Hdone].
+  unfold R. cbn [unflag st_db st_db_epoch st_epoch st_flag st_mem]. rewrite Hf1, Hf2. cbn [filter].
+  repeat (split; [assumption || reflexivity|]). exact Hbd.
+Qed.
+
+Section Sim.
+Variable rules : key -> rule.
+Variable env : key -> N.
+Variable F : key -> N -> list value -> list N -> N -> N.
+Variable order : N -> key -> list dep -> list dep.
+
+(* taskIsComplete on both sides: the same result is stored in memory and in the database *)
+Lemma complete_sim s1 s2 k rl r1 r2 bk v :
+  Rb s1 s2 -> rel r1 r2 -> res_computedAt r1 = cA (st_mem s1) k ->
+  Rb (complete order s1 k rl r1 bk v) (complete order s2 k rl r2 bk v) /\
+  samelog s1 s2 (complete order s1 k rl r1 bk v) (complete order s2 k rl r2 bk v).
+Proof.
+  intros HR Hr Hc1. pose proof (Rb_epoch _ _ HR) as He.
+  destruct Hr as [Hv [Hs [Hc _]]].
+  unfold complete. cbn [emit st_epoch]. rewrite <- He, <- Hv, <- Hc.
+  set (r' := mkRes (Some v) (r_sig rl) _ (st_epoch s1) _).
+  split.
+  - apply Rb_set_db. apply Rb_set_mem.
+    + apply Rb_unflag. apply (Rb_emit s1 s2 (EComplete k v) (EComplete k v)). exact HR.
+    + apply rel_refl.
+    + cbn. lia.
+    + intros _. reflexivity.
+    + subst r'. cbn [res_computedAt unflag emit st_mem st_epoch].
+      destruct (match res_value r1 with Some old => negb (value_eqb old v) | None => true end);
+        [right; reflexivity | left; exact Hc1].
+    + left. reflexivity.
+  - exists [EComplete k v]. split; reflexivity.
+Qed.
+
+(* ---------- one step, generically over the recursive call ---------- *)
+Variable ens : list key -> state -> key -> outcome.
+Hypothesis Hsim : forall stack s1 s2 k, Rb s1 s2 -> osim s1 s2 (ens stack s1 k) (ens stack s2 k).
+Hypothesis Hfr : forall stack s k, frame stack s k (ens stack s k).
+
+Lemma requests_sim ks : forall k stack slot s1 s2 acc, Rb s1 s2 ->
+  osim s1 s2 (fst (requests ens k stack ks slot s1 acc)) (fst (requests ens k stack ks slot s2 acc)) /\
+  snd (requests ens k stack ks slot s1 acc) = snd (requests ens k stack ks slot s2 acc).
+Proof.
+  induction ks as [|x ks IH]; intros k stack slot s1 s2 acc HR; cbn [requests].
+  - cbn [fst snd osim]. split; [split; [exact HR | apply samelog_refl] | reflexivity].
+  - pose proof (Hsim (k :: stack) s1 s2 x HR) as H.
+    destruct (ens (k :: stack) s1 x) as [a|a p|], (ens (k :: stack) s2 x) as [b|b q|]; cbn [osim] in H;
+      try contradiction; cbn [fst snd].
+    + destruct H as [HR' HL]. pose proof (Rb_rel _ _ x HR') as [Hv _]. rewrite <- Hv.
+      set (v := res_value (get (st_mem a) x)).
+      destruct (IH k stack (S slot) (emit a (EProvide k slot x v)) (emit b (EProvide k slot x v)) (acc ++ [v])
+                  (Rb_emit _ _ _ _ HR')) as [I1 I2].
+      split; [|exact I2]. eapply osim_base; [|exact I1]. apply samelog_emit. exact HL.
+    + split; [exact H | reflexivity].
+    + split; [exact I | reflexivity].
+Qed.
+
+Lemma follows_sim ks : forall k stack s1 s2, Rb s1 s2 ->
+  osim s1 s2 (follows ens k stack ks s1) (follows ens k stack ks s2).
+Proof.
+  induction ks as [|x ks IH]; intros k stack s1 s2 HR; cbn [follows].
+  - cbn [osim]. split; [exact HR | apply samelog_refl].
+  - pose proof (Hsim (k :: stack) s1 s2 x HR) as H.
+    destruct (ens (k :: stack) s1 x) as [a|a p|], (ens (k :: stack) s2 x) as [b|b q|]; cbn [osim] in H;
+      try contradiction.
+    + destruct H as [HR' HL]. eapply osim_base; [exact HL|]. apply IH. exact HR'.
+    + exact H.
+    + exact I.
+Qed.
+
+(* a key on the stack keeps its memory entry across nested calls *)
+Lemma requests_frozen k stack ks slot s acc a acc' :
+  requests ens k stack ks slot s acc = (Ok a, acc') ->
+  get (st_mem a) k = get (st_mem s) k /\ st_epoch a = st_epoch s.
+Proof.
+  intros H. apply requests_seg in H. apply (seg_frame ens Hfr) in H. destruct H as [H _]. cbn [frame_o] in H.
+  split; [apply (fr_stack _ _ _ _ _ H); left; reflexivity | apply (fr_epoch _ _ _ _ _ H)].
+Qed.
+
+Lemma follows_frozen k stack ks s a :
+  follows ens k stack ks s = Ok a ->
+  get (st_mem a) k = get (st_mem s) k /\ st_epoch a = st_epoch s.
+Proof.
+  intros H. apply follows_seg in H. apply (seg_frame ens Hfr) in H. destruct H as [H _]. cbn [frame_o] in H.
+  split; [apply (fr_stack _ _ _ _ _ H); left; reflexivity | apply (fr_epoch _ _ _ _ _ H)].
+Qed.
+
+Lemma run_pre_sim k r1 r2 s1 s2 : Rb s1 s2 -> rel r1 r2 ->
+  Rb (run_pre rules k r1 s1) (run_pre rules k r2 s2) /\
+  samelog s1 s2 (run_pre rules k r1 s1) (run_pre rules k r2 s2).
+Proof.
+  intros HR [Hv [Hs [_ [_ [Hle H0]]]]]. unfold run_pre. rewrite <- Hs, <- Hv.
+  assert (E : N.eqb (res_builtAt r1) 0 = N.eqb (res_builtAt r2) 0).
+  { destruct (N.eqb_spec (res_builtAt r1) 0) as [A|A], (N.eqb_spec (res_builtAt r2) 0) as [B|B]; try reflexivity; lia. }
+  rewrite <- E.
+  destruct (negb (N.eqb (res_builtAt r1) 0) && N.eqb (r_sig (rules k)) (res_sig r1)).
+  - split; [exact HR|]. do 3 apply samelog_emit. apply samelog_refl.
+  - split; [exact HR|]. do 2 apply samelog_emit. apply samelog_refl.
+Qed.
+
+Lemma run_pre_cA k r s x : cA (st_mem (run_pre rules k r s)) x = cA (st_mem s) x.
+Proof. rewrite run_pre_mem. reflexivity. Qed.
+
+Ltac stage S HL :=
+  match type of S with
+  | osim _ _ ?o1 ?o2 =>
+    destruct o1 as [?a|?a ?p|], o2 as [?b|?b ?q|]; cbn [osim] in S; try contradiction;
+    [ | eapply osim_base; [exact HL | exact S] | exact I]
+  end.
+
+Lemma run_sim k stack r1 r2 s1 s2 :
+  Rb s1 s2 -> rel r1 r2 -> res_computedAt r1 = cA (st_mem s1) k ->
+  osim s1 s2 (run rules env F order ens k stack r1 s1) (run rules env F order ens k stack r2 s2).
+Proof.
+  intros HR Hr Hc. unfold run. fold (run_pre rules k r1 s1). fold (run_pre rules k r2 s2).
+  destruct (run_pre_sim k r1 r2 s1 s2 HR Hr) as [HR0 HL0].
+  rewrite <- (run_pre_cA k r1 s1 k) in Hc.
+  set (a0 := run_pre rules k r1 s1) in *. set (b0 := run_pre rules k r2 s2) in *.
+  (* requested keys *)
+  destruct (requests_sim (r_req (rules k)) k stack 0%nat a0 b0 [] HR0) as [S1 A1].
+  destruct (requests ens k stack (r_req (rules k)) 0 a0 []) as [o1 slots1] eqn:E1.
+  destruct (requests ens k stack (r_req (rules k)) 0 b0 []) as [o1' slots1'] eqn:E1'.
+  cbn [fst snd] in S1, A1. subst slots1'. stage S1 HL0.
+  destruct S1 as [HR1 HL1]. pose proof (samelog_trans _ _ _ _ _ _ HL0 HL1) as HL01.
+  destruct (requests_frozen _ _ _ _ _ _ _ _ E1) as [F1 _].
+  (* single-use keys *)
+  destruct (requests_sim (r_single (rules k)) k stack (length slots1) a b [] HR1) as [S2 A2].
+  destruct (requests ens k stack (r_single (rules k)) (length slots1) a []) as [o2 slots2] eqn:E2.
+  destruct (requests ens k stack (r_single (rules k)) (length slots1) b []) as [o2' slots2'] eqn:E2'.
+  cbn [fst snd] in S2, A2. subst slots2'. stage S2 HL01.
+  destruct S2 as [HR2 HL2]. pose proof (samelog_trans _ _ _ _ _ _ HL01 HL2) as HL02.
+  destruct (requests_frozen _ _ _ _ _ _ _ _ E2) as [F2 _].
+  (* must-follow keys *)
+  pose proof (follows_sim (r_follow (rules k)) k stack a1 b1 HR2) as S3.
+  destruct (follows ens k stack (r_follow (rules k)) a1) as [a2|a2 p2|] eqn:E3;
+    destruct (follows ens k stack (r_follow (rules k)) b1) as [b2|b2 q2|] eqn:E3'; cbn [osim] in S3; try contradiction;
+    [ | eapply osim_base; [exact HL02 | exact S3] | exact I].
+  destruct S3 as [HR3 HL3]. pose proof (samelog_trans _ _ _ _ _ _ HL02 HL3) as HL03.
+  destruct (follows_frozen _ _ _ _ _ E3) as [F3 _].
+  (* branch keys *)
+  set (bk := branch_keys (rules k) slots1).
+  destruct (requests_sim bk k stack (length slots1 + length slots2)%nat a2 b2 [] HR3) as [S4 A4].
+  destruct (requests ens k stack bk (length slots1 + length slots2) a2 []) as [o4 slots3] eqn:E4.
+  destruct (requests ens k stack bk (length slots1 + length slots2) b2 []) as [o4' slots3'] eqn:E4'.
+  cbn [fst snd] in S4, A4. subst slots3'. stage S4 HL03.
+  destruct S4 as [HR4 HL4]. pose proof (samelog_trans _ _ _ _ _ _ HL03 HL4) as HL04.
+  destruct (requests_frozen _ _ _ _ _ _ _ _ E4) as [F4 _].
+  (* completion, then the discovered dependencies *)
+  assert (Hc4 : res_computedAt r1 = cA (st_mem (emit a3 (EAvail k))) k).
+  { cbn [emit st_mem]. unfold cA in *. rewrite F4, F3, F2, F1. exact Hc. }
+  destruct (complete_sim (emit a3 (EAvail k)) (emit b3 (EAvail k)) k (rules k) r1 r2 bk
+              (task_value rules env F k (rules k) slots1 slots3)
+              (Rb_emit _ _ _ _ HR4) Hr Hc4) as [HR5 HL5].
+  eapply osim_base; [|apply follows_sim; exact HR5].
+  eapply samelog_trans; [|exact HL5]. apply samelog_emit. exact HL04.
+Qed.
+
+Lemma ens_frozen k stack s x a : ens (k :: stack) s x = Ok a ->
+  get (st_mem a) k = get (st_mem s) k /\ st_epoch a = st_epoch s.
+Proof.
+  intros E. destruct (Hfr (k :: stack) s x) as [H _]. rewrite E in H. cbn [frame_o] in H.
+  split; [apply (fr_stack _ _ _ _ _ H); left; reflexivity | apply (fr_epoch _ _ _ _ _ H)].
+Qed.
+
+(* processRuleScanRequest on both sides *)
+Lemma scan_sim ds : forall k stack r1 r2 s1 s2,
+  Rb s1 s2 -> rel r1 r2 -> get (st_mem s1) k = r1 -> get (st_mem s2) k = r2 ->
+  (forall d, In d ds -> In d (drop_single (res_deps r1))) ->
+  osim s1 s2 (scan rules env F order ens k stack r1 ds s1) (scan rules env F order ens k stack r2 ds s2).
+Proof.
+  induction ds as [|d ds IH]; intros k stack r1 r2 s1 s2 HR Hr G1 G2 Hsub; cbn [scan].
+  - cbn [osim]. split; [|exists []; split; reflexivity].
+    pose proof (Rb_epoch _ _ HR) as He. destruct Hr as [Hv [Hs [Hc [Hd _]]]].
+    apply Rb_set_mem; try exact HR; cbn [res_builtAt res_computedAt res_deps].
+    + unfold rel. cbn. repeat split; try assumption; lia.
+    + lia.
+    + intros _. symmetry. exact He.
+    + left. unfold cA. rewrite G1. reflexivity.
+    + left. symmetry. exact He.
+  - pose proof (Hsim (k :: stack) s1 s2 (d_key d) HR) as H.
+    destruct (ens (k :: stack) s1 (d_key d)) as [a|a p|] eqn:E1;
+      destruct (ens (k :: stack) s2 (d_key d)) as [b|b q|] eqn:E2; cbn [osim] in H; try contradiction;
+      [ | exact H | exact I].
+    destruct H as [HR' HL].
+    destruct (ens_frozen _ _ _ _ _ E1) as [Fa _]. destruct (ens_frozen _ _ _ _ _ E2) as [Fb _].
+    rewrite G1 in Fa. rewrite G2 in Fb.
+    pose proof (Rb_rel _ _ (d_key d) HR') as [_ [_ [Hcd _]]]. rewrite <- Hcd.
+    assert (Hcond : negb (d_order d) && (res_builtAt r2 <? res_computedAt (get (st_mem a) (d_key d))) =
+                    negb (d_order d) && (res_builtAt r1 <? res_computedAt (get (st_mem a) (d_key d)))).
+    { destruct (d_order d) eqn:Eo; [reflexivity|]. cbn [negb andb].
+      destruct Hr as [_ [_ [_ [_ [Hle _]]]]].
+      destruct (N.ltb_spec (res_builtAt r1) (res_computedAt (get (st_mem a) (d_key d)))) as [L|L];
+        destruct (N.ltb_spec (res_builtAt r2) (res_computedAt (get (st_mem a) (d_key d)))) as [L'|L'];
+        try reflexivity; try lia.
+      exfalso. apply (Rb_gap a b k d HR'); [rewrite Fa; apply Hsub; left; reflexivity | exact Eo|].
+      unfold bA, cA. rewrite Fa, Fb. split; assumption. }
+    rewrite Hcond.
+    destruct (negb (d_order d) && (res_builtAt r1 <? res_computedAt (get (st_mem a) (d_key d)))).
+    + eapply osim_base; [apply samelog_emit; exact HL|].
+      apply run_sim; [apply Rb_emit; exact HR' | exact Hr|].
+      cbn [emit st_mem]. unfold cA. rewrite Fa. reflexivity.
+    + eapply osim_base; [exact HL|]. apply IH; try assumption.
+      intros d' Hd'. apply Hsub. right. exact Hd'.
+Qed.
+
+Lemma valid_rel k r1 r2 : res_value r1 = res_value r2 -> valid rules env k r1 = valid rules env k r2.
+Proof. intros H. unfold valid. rewrite H. reflexivity. Qed.
+
+Definition clean (r0 : result) : result :=
+  mkRes (res_value r0) (res_sig r0) (res_computedAt r0) (res_builtAt r0) (drop_single (res_deps r0)).
+
+Lemma clean_sim s1 s2 k : Rb s1 s2 ->
+  Rb (set_mem s1 k (clean (get (st_mem s1) k))) (set_mem s2 k (clean (get (st_mem s2) k))) /\
+  rel (clean (get (st_mem s1) k)) (clean (get (st_mem s2) k)).
+Proof.
+  intros HR. pose proof (Rb_rel _ _ k HR) as [Hv [Hs [Hc [Hd [Hle H0]]]]].
+  assert (Hr : rel (clean (get (st_mem s1) k)) (clean (get (st_mem s2) k))).
+  { unfold rel, clean. cbn. rewrite !drop_single_idem. repeat split; assumption. }
+  split; [|exact Hr].
+  apply Rb_set_mem; try assumption; cbn [clean res_builtAt res_computedAt res_deps].
+  - apply (Rb_bound _ _ k HR).
+  - intros E. pose proof (proj1 (Rb_done_iff _ _ k HR) E) as D. unfold done in D.
+    rewrite (Rb_epoch _ _ HR). exact D.
+  - left. reflexivity.
+  - right. rewrite drop_single_idem. repeat split; reflexivity.
+Qed.
+
+Lemma ensure_body_sim stack s1 s2 k : Rb s1 s2 ->
+  osim s1 s2 (ensure_body rules env F order ens stack s1 k) (ensure_body rules env F order ens stack s2 k).
+Proof.
+  intros HR. unfold ensure_body.
+  destruct (existsb (N.eqb k) stack).
+  { cbn [osim]. split; [reflexivity|]. split; [exact HR | apply samelog_refl]. }
+  assert (Ed : N.eqb (res_builtAt (get (st_mem s1) k)) (st_epoch s1) =
+               N.eqb (res_builtAt (get (st_mem s2) k)) (st_epoch s2)).
+  { pose proof (Rb_done_iff _ _ k HR) as D. unfold done in D.
+    destruct (N.eqb_spec (res_builtAt (get (st_mem s1) k)) (st_epoch s1)) as [A|A];
+      destruct (N.eqb_spec (res_builtAt (get (st_mem s2) k)) (st_epoch s2)) as [B|B]; try reflexivity; tauto. }
+  rewrite <- Ed. destruct (N.eqb (res_builtAt (get (st_mem s1) k)) (st_epoch s1)).
+  { cbn [osim]. split; [exact HR | apply samelog_refl]. }
+  fold (clean (get (st_mem s1) k)). fold (clean (get (st_mem s2) k)).
+  destruct (clean_sim s1 s2 k HR) as [HR' Hr].
+  set (r1 := clean (get (st_mem s1) k)) in *. set (r2 := clean (get (st_mem s2) k)) in *.
+  set (a := set_mem s1 k r1) in *. set (b := set_mem s2 k r2) in *.
+  assert (HL : samelog s1 s2 a b) by (exists []; split; reflexivity).
+  assert (Hca : forall e, res_computedAt r1 = cA (st_mem (emit a e)) k).
+  { intros e. cbn [emit st_mem]. subst a. cbn [set_mem st_mem]. rewrite cA_update_same. reflexivity. }
+  pose proof Hr as [Hv [Hs [_ [Hdeps [Hle H0]]]]].
+  assert (E0 : N.eqb (res_builtAt r1) 0 = N.eqb (res_builtAt r2) 0).
+  { destruct (N.eqb_spec (res_builtAt r1) 0) as [A|A], (N.eqb_spec (res_builtAt r2) 0) as [B|B]; try reflexivity; lia. }
+  rewrite <- E0. destruct (N.eqb (res_builtAt r1) 0).
+  { eapply osim_base; [apply samelog_emit; exact HL|]. apply run_sim; [apply Rb_emit; exact HR' | exact Hr | apply Hca]. }
+  rewrite (Rb_flagged1 _ _ k HR'), (Rb_flagged2 _ _ k HR'). rewrite <- Hs.
+  destruct (negb (N.eqb (r_sig (rules k)) (res_sig r1))).
+  { eapply osim_base; [apply samelog_emit; exact HL|]. apply run_sim; [apply Rb_emit; exact HR' | exact Hr | apply Hca]. }
+  rewrite <- (valid_rel k r1 r2 Hv). destruct (negb (valid rules env k r1)).
+  { eapply osim_base; [do 2 apply samelog_emit; exact HL|].
+    apply run_sim; [do 2 apply Rb_emit; exact HR' | exact Hr | apply (Hca (EValid k false))]. }
+  eapply osim_base; [apply samelog_emit; exact HL|].
+  assert (Hd12 : res_deps r2 = res_deps r1).
+  { unfold r1, r2, clean. cbn [res_deps]. destruct (Rb_rel _ _ k HR) as [_ [_ [_ [Hd0 _]]]]. symmetry. exact Hd0. }
+  rewrite Hd12.
+  apply scan_sim; [apply Rb_emit; exact HR' | exact Hr | | |].
+  - cbn [emit st_mem]. subst a. cbn [set_mem st_mem]. apply get_update_same.
+  - cbn [emit st_mem]. subst b. cbn [set_mem st_mem]. apply get_update_same.
+  - intros d Hd. subst r1. cbn [clean res_deps] in *. rewrite drop_single_idem. exact Hd.
+Qed.
+
+End Sim.
+
+(* ---------- lifted to ensure and build ---------- *)
+
+Section Lift.
+Variable rules : key -> rule.
+Variable env : key -> N.
+Variable F : key -> N -> list value -> list N -> N -> N.
+Variable order : N -> key -> list dep -> list dep.
+
+Theorem ensure_sim fuel : forall stack s1 s2 k, Rb s1 s2 ->
+  osim s1 s2 (ensure rules env F order fuel stack s1 k) (ensure rules env F order fuel stack s2 k).
+Proof.
+  induction fuel as [|f IH]; intros stack s1 s2 k HR; cbn [ensure]; [exact I|].
+  apply ensure_body_sim; [exact IH | apply ensure_frame | exact HR].
+Qed.
+
+(* the statement in the form of the task: same outcome, related final states, the same new events *)
+Theorem ensure_simulation fuel stack s1 s2 k : Rb s1 s2 ->
+  (forall s1', ensure rules env F order fuel stack s1 k = Ok s1' ->
+     exists s2', ensure rules env F order fuel stack s2 k = Ok s2' /\ Rb s1' s2' /\ new_log s1 s1' = new_log s2 s2') /\
+  (forall s1' p, ensure rules env F order fuel stack s1 k = Cycle s1' p ->
+     exists s2', ensure rules env F order fuel stack s2 k = Cycle s2' p /\ Rb s1' s2' /\ new_log s1 s1' = new_log s2 s2') /\
+  (ensure rules env F order fuel stack s1 k = OutOfFuel -> ensure rules env F order fuel stack s2 k = OutOfFuel).
+Proof.
+  intros HR. pose proof (ensure_sim fuel stack s1 s2 k HR) as H.
+  destruct (ensure rules env F order fuel stack s1 k) as [a|a p|];
+    destruct (ensure rules env F order fuel stack s2 k) as [b|b q|]; cbn [osim] in H; try contradiction.
+  - destruct H as [HR' HL]. split; [|split]; [|intros ? ? E; discriminate | intros E; discriminate].
+    intros s1' E. inversion E; subst. exists b. split; [reflexivity|]. split; [exact HR' | apply samelog_new_log; exact HL].
+  - destruct H as [-> [HR' HL]]. split; [|split]; [intros ? E; discriminate | | intros E; discriminate].
+    intros s1' p' E. inversion E; subst. exists b. split; [reflexivity|]. split; [exact HR' | apply samelog_new_log; exact HL].
+  - split; [|split]; [intros ? E; discriminate | intros ? ? E; discriminate | reflexivity].
+Qed.
+
+Lemma R_bump s1 s2 : R s1 s2 -> Rb (bump_epoch s1) (bump_epoch s2).
+Proof.
+  intros [Hdb [Hde [He [Hf1 [Hf2 [Hm Hbd]]]]]]. split.
+  - unfold R. cbn [bump_epoch st_db st_db_epoch st_epoch st_flag st_mem]. rewrite He.
+    repeat (split; [assumption || reflexivity|]). intros k. specialize (Hbd k). lia.
+  - intros k Hd. unfold done in Hd. cbn [bump_epoch st_mem st_epoch] in Hd. specialize (Hbd k). unfold bA in Hbd. lia.
+Qed.
+
+Lemma Rb_commit s1 s2 : Rb s1 s2 -> R (commit_epoch s1) (commit_epoch s2).
+Proof.
+  intros [[Hdb [Hde [He [Hf1 [Hf2 [Hm Hbd]]]]]] _].
+  unfold R. cbn [commit_epoch st_db st_db_epoch st_epoch st_flag st_mem].
+  repeat (split; [assumption || reflexivity|]). exact Hbd.
+Qed.
+
+Theorem build_sim fuel s1 s2 k : R s1 s2 ->
+  osimR s1 s2 (build rules env F order fuel s1 k) (build rules env F order fuel s2 k).
+Proof.
+  intros HR. unfold build. pose proof (ensure_sim fuel [] _ _ k (R_bump _ _ HR)) as H.
+  destruct (ensure rules env F order fuel [] (bump_epoch s1) k) as [a|a p|];
+    destruct (ensure rules env F order fuel [] (bump_epoch s2) k) as [b|b q|]; cbn [osim] in H; try contradiction;
+    cbn [osimR].
+  - destruct H as [HR' HL]. split; [apply Rb_commit; exact HR' | exact HL].
+  - destruct H as [Hp [HR' HL]]. split; [exact Hp|]. split; [apply Rb_commit; exact HR' | exact HL].
+  - exact I.
+Qed.
+
+End Lift.
